@@ -637,7 +637,7 @@ func (p *PQL) Init() {
 			position, tokenIndex = position0, tokenIndex0
 			return false
 		},
-		/* 1 Call <- <(('S' 'e' 't' Action0 open col comma args (comma timestamp)? close Action1) / ('S' 'e' 't' 'R' 'o' 'w' 'A' 't' 't' 'r' 's' Action2 open posfield comma row comma args close Action3) / ('S' 'e' 't' 'C' 'o' 'l' 'u' 'm' 'n' 'A' 't' 't' 'r' 's' Action4 open col comma args close Action5) / ('C' 'l' 'e' 'a' 'r' Action6 open col comma args close Action7) / ('C' 'l' 'e' 'a' 'r' 'R' 'o' 'w' Action8 open arg close Action9) / ('S' 't' 'o' 'r' 'e' Action10 open Call comma arg close Action11) / ('T' 'o' 'p' 'N' Action12 open posfield (comma allargs)? close Action13) / ('R' 'o' 'w' 's' Action14 open posfield (comma allargs)? close Action15) / ('R' 'a' 'n' 'g' 'e' Action16 open field sp '=' sp value comma ('f' 'r' 'o' 'm' '=')? Action17 timestampfmt Action18 comma ('t' 'o' '=')? sp Action19 timestampfmt Action20 close Action21) / (<IDENT> Action22 open allargs comma? close Action23))> */
+		/* 1 Call <- <(('S' 'e' 't' Action0 open col comma args (comma timestamp)? close Action1) / ('S' 'e' 't' 'R' 'o' 'w' 'A' 't' 't' 'r' 's' Action2 open posfield comma row comma args close Action3) / ('S' 'e' 't' 'C' 'o' 'l' 'u' 'm' 'n' 'A' 't' 't' 'r' 's' Action4 open col comma args close Action5) / ('C' 'l' 'e' 'a' 'r' Action6 open col comma args close Action7) / ('C' 'l' 'e' 'a' 'r' 'R' 'o' 'w' Action8 open arg close Action9) / ('T' 'o' 'p' 'N' Action12 open posfield (comma allargs)? close Action13) / ('R' 'o' 'w' 's' Action14 open posfield (comma allargs)? close Action15) / ('R' 'a' 'n' 'g' 'e' Action16 open field sp '=' sp value comma ('f' 'r' 'o' 'm' '=')? Action17 timestampfmt Action18 comma ('t' 'o' '=')? sp Action19 timestampfmt Action20 close Action21) / (<IDENT> Action22 open allargs comma? close Action23))> */
 		func() bool {
 			position5, tokenIndex5 := position, tokenIndex
 			{
@@ -1004,50 +1004,6 @@ func (p *PQL) Init() {
 					}
 					goto l7
 				l35:
-					position, tokenIndex = position7, tokenIndex7
-					if buffer[position] != rune('S') {
-						goto l38
-					}
-					position++
-					if buffer[position] != rune('t') {
-						goto l38
-					}
-					position++
-					if buffer[position] != rune('o') {
-						goto l38
-					}
-					position++
-					if buffer[position] != rune('r') {
-						goto l38
-					}
-					position++
-					if buffer[position] != rune('e') {
-						goto l38
-					}
-					position++
-					{
-						add(ruleAction10, position)
-					}
-					if !_rules[ruleopen]() {
-						goto l38
-					}
-					if !_rules[ruleCall]() {
-						goto l38
-					}
-					if !_rules[rulecomma]() {
-						goto l38
-					}
-					if !_rules[rulearg]() {
-						goto l38
-					}
-					if !_rules[ruleclose]() {
-						goto l38
-					}
-					{
-						add(ruleAction11, position)
-					}
-					goto l7
-				l38:
 					position, tokenIndex = position7, tokenIndex7
 					if buffer[position] != rune('T') {
 						goto l41
